@@ -7,6 +7,9 @@ import (
 	"github.com/gogo/protobuf/proto"
 	pb "github.com/ipfs/boxo/ipld/unixfs/pb"
 	format "github.com/ipfs/go-ipld-format"
+	"github.com/ipld/go-ipld-prime/node/basicnode"
+	"github.com/ipld/go-ipld-prime/traversal"
+	selbuilder "github.com/ipld/go-ipld-prime/traversal/selector/builder"
 	"github.com/multiformats/go-multihash"
 	"io"
 	"math/rand"
@@ -484,6 +487,32 @@ func runFileCase(fc *FileCase, tr *Tr) error {
 				eq = eq && (err != nil || len(b) == len(content))
 			}
 			tr.Emit(M{"ev": "whole", "how": "asbytes", "n": len(b), "e": errClass(err), "data": d, "eq": eq,
+				"loads": classes(fw, loads), "failed": classes(fw, failed)})
+		case "subset":
+			// the byte range [a,b) through a subset-matcher traversal over the reified node
+			a, bb := int64(num(op[1])), int64(num(op[2]))
+			ssb := selbuilder.NewSelectorSpecBuilder(basicnode.Prototype.Any)
+			sel, serr := ssb.MatcherSubset(a, bb).Selector()
+			if serr != nil {
+				return serr
+			}
+			var got []byte
+			var werr error
+			matches := 0
+			if pm := guard(func() {
+				prog := traversal.Progress{Cfg: &traversal.Config{Ctx: context.Background(), LinkSystem: *ls}}
+				werr = prog.WalkMatching(node, sel, func(_ traversal.Progress, n datamodel.Node) error {
+					matches++
+					b, err := n.AsBytes()
+					got = append(got, b...)
+					return err
+				})
+			}); pm != nil {
+				werr = pm
+			}
+			loads, failed := st.TakeLoads()
+			d, eq := dataOf(a, got)
+			tr.Emit(M{"ev": "subset", "a": a, "b": bb, "n": len(got), "matches": matches, "e": errClass(werr), "data": d, "eq": eq,
 				"loads": classes(fw, loads), "failed": classes(fw, failed)})
 		case "heal":
 			// every block becomes available again (retrieval resumes): readers must carry on correctly
